@@ -340,7 +340,21 @@ fn make_call<'g>(
     sh: &Rc<RefCell<Shared>>,
     rx: Option<Rx>,
 ) -> BoxFut<'g> {
-    let lim: Option<usize> = if cfg.lim == 0 { None } else { Some(cfg.lim) };
+    // `lim=0` of the case format stands for "unbounded": `None` on graphs with an even number of
+    // functions, `Some(0)` on graphs with an odd number (both must behave the same).
+    let n_fns = match &g {
+        GRef::Shared(g) => g.graph.node_count(),
+        GRef::Mut(g) => g.graph.node_count(),
+    };
+    let lim: Option<usize> = if cfg.lim == 0 {
+        if n_fns % 2 == 1 {
+            Some(0)
+        } else {
+            None
+        }
+    } else {
+        Some(cfg.lim)
+    };
     let sh = sh.clone();
     let with = cfg.with;
     match (cfg.api, g) {
